@@ -715,6 +715,17 @@ def promote_dict(it, d, idx, v):
     return None
 
 
+def empty_symmap(it, ksort, vsort, kbk=None, vbk=None, keys=False):
+    """the empty dict as a symbolic map (absent keys read as the sort's zero; never observed)"""
+    zero = {"Int": I(0), "Real": R(0), "Bool": B(False), "String": S("")}.get(vsort)
+    if zero is None:
+        raise Unsupported("empty_symmap value sort")
+    m = SymMap(ksort, vsort, smt.ConstArray(ksort, B(False)), smt.ConstArray(ksort, zero),
+               keys=smt.SeqEmpty(ksort) if keys else None, kbk=kbk)
+    m.vbk = vbk
+    return m
+
+
 def delitem(it, obj, idx, node=None):
     if isinstance(obj, SymMap):
         tk = it.term(idx)
@@ -906,7 +917,7 @@ def concrete_str_method(it, s, name, a, k):
                 return FStr(parts) if isinstance(s, str) else str_method(it, S(s), "join").fn(a[0])
             return str_method(it, S(s), "join").fn(a[0])
         return str_method(it, S(s), name).fn(*a, **k)
-    if name == "format":
+    if name == "format" and (any(isinstance(x, Opaque) for x in a) or any(isinstance(x, Opaque) for x in k.values())):
         return Opaque("format")
     if name == "join" and a and isinstance(a[0], (list, tuple)) and any(isinstance(x, Opaque) for x in a[0]):
         return Opaque("join")
@@ -1354,10 +1365,7 @@ def py_int(it, v, base=None):
             fl = smt.app("to_int", "Int", v)
             return Ite(smt.Cmp(">=", v, R(0)), fl, smt.Neg(smt.app("to_int", "Int", smt.Neg(v))))
         if v.sort == "String":
-            ok = in_re(v, digits_re())
-            if it.spec_mode or it.truth(ok, "int-digits"):
-                return smt.app("str.to_int", "Int", v)
-            return int_fallback(it, v, "py_int_other")
+            return int_of_string(it, v)
         raise Unsupported(f"int() of {v.sort}")
     if isinstance(v, fractions.Fraction):
         return int(v)
@@ -1369,6 +1377,26 @@ def py_int(it, v, base=None):
         it.raise_(ValueError, str(e))
     except TypeError as e:
         it.raise_(TypeError, str(e))
+
+
+def int_of_string(it, v):
+    """int(s) for a str/bytes term.  pure digit string: py_intval(s) == str.to_int(s);
+    digits with surrounding whitespace: py_intval(s) >= 0; anything else either
+    raises ValueError or yields some integer (sign, underscores ...: over-approximation)."""
+    it.ctx.uf("py_intval", ["String"], "Int")
+    val = smt.app("py_intval", "Int", v)
+    if it.spec_mode:
+        return val
+    pure = in_re(v, digits_re())
+    if it.truth(pure, "int-digits"):
+        it.ctx.assume(smt.Cmp(">=", val, I(0)))
+        it.ctx.assume(Eq(val, smt.app("str.to_int", "Int", v)))
+        return val
+    ws = f"(re.* {ws_re()})"
+    if it.truth(in_re(v, f"(re.++ {ws} {digits_re()} {ws})"), "int-ws-digits"):
+        it.ctx.assume(smt.Cmp(">=", val, I(0)))
+        return val
+    return int_fallback(it, v, "py_int_other")
 
 
 def int_fallback(it, v, fn):
@@ -1387,9 +1415,18 @@ def py_float(it, v):
         if v.sort in ("Int", "Bool"):
             return lift(py_int(it, v), "Real")
         if v.sort == "String":
-            ok = in_re(v, digits_re())
-            if it.spec_mode or it.truth(ok, "float-digits"):
-                return lift(smt.app("str.to_int", "Int", v), "Real")
+            it.ctx.uf("py_intval", ["String"], "Int")
+            val = smt.app("py_intval", "Int", v)
+            if it.spec_mode:
+                return lift(val, "Real")
+            if it.truth(in_re(v, digits_re()), "float-digits"):
+                it.ctx.assume(smt.Cmp(">=", val, I(0)))
+                it.ctx.assume(Eq(val, smt.app("str.to_int", "Int", v)))
+                return lift(val, "Real")
+            ws = f"(re.* {ws_re()})"
+            if it.truth(in_re(v, f"(re.++ {ws} {digits_re()} {ws})"), "float-ws-digits"):
+                it.ctx.assume(smt.Cmp(">=", val, I(0)))
+                return lift(val, "Real")
             if it.truth(it.fresh("float_parses", "Bool"), "float-other-parses"):
                 it.ctx.uf("py_float_other", ["String"], "Real")
                 return smt.app("py_float_other", "Real", v)
